@@ -19,6 +19,9 @@ def run(ctx, rep):
         c15.check_value_ord(crate, rep, cfg)
         check_orduse(crate, rep, cfg)
         rpanic.check(crate, rep, "R-PANIC.coll", ("filters.rs",), cfg, 10)
+        # first / last / nth agree with indexing and reverse because they ARE slice::first / last / get (C17.DELEG, shared)
+        from props import c17
+        c17.check_seq_deleg(crate, rep, cfg)
 
 
 def check_orduse(crate, rep, cfg):
